@@ -48,6 +48,8 @@ SSub(a, b) == IF (b < 0 /\ a > MaxL + b) \/ (b > 0 /\ a < MinL + b) THEN <<FALSE
 SMul(a, b) ==
     IF a = 0 \/ b = 0 THEN <<TRUE, 0>>
     ELSE IF a = MinL \/ b = MinL THEN (IF a = 1 THEN <<TRUE, b>> ELSE IF b = 1 THEN <<TRUE, a>> ELSE <<FALSE, 0>>)
+    \* the one product of larger magnitude that still fits: exactly -2^31
+    ELSE IF ((a < 0) # (b < 0)) /\ Abs(b) > 1 /\ Abs(a) = (MaxL \div Abs(b)) + 1 /\ (MaxL % Abs(b)) + 1 = Abs(b) THEN <<TRUE, MinL>>
     ELSE IF Abs(a) > MaxL \div Abs(b) THEN <<FALSE, 0>>
     ELSE <<TRUE, a * b>>
 \* truncating division and remainder with the sign of the dividend (b # 0, not MinL / -1)
